@@ -34,10 +34,12 @@ def derive_seed(*parts):
 
 def _child(fn, arg, wfd, wall):
     try:
-        faulthandler.enable()
-        faulthandler.dump_traceback_later(max(1.0, wall - 1.0), exit=False)
         devnull = os.open(os.devnull, os.O_WRONLY)
         os.dup2(devnull, 1)
+        errf = os.open("/tmp/verif-child-%d.err" % os.getpid(), os.O_WRONLY | os.O_CREAT | os.O_TRUNC, 0o600)
+        os.dup2(errf, 2)
+        faulthandler.enable()
+        faulthandler.dump_traceback_later(max(1.0, wall - 1.0), exit=False)
         try:
             res = fn(arg)
             out = {"ok": True, "res": res}
@@ -50,6 +52,17 @@ def _child(fn, arg, wfd, wall):
             off += os.write(wfd, data[off:off + 65536])
     finally:
         os._exit(0)
+
+
+def _child_err(pid):
+    path = "/tmp/verif-child-%d.err" % pid
+    try:
+        with open(path, "rb") as f:
+            data = f.read()
+        os.unlink(path)
+        return data[-3000:].decode("utf-8", "replace")
+    except OSError:
+        return ""
 
 
 def _json_default(o):
@@ -103,10 +116,13 @@ def run_parallel(fn, items, workers=None, wall=60.0, on_result=None):
             except ChildProcessError:
                 pass
             raw = b"".join(ent[3])
+            cerr = _child_err(ent[1])
             try:
                 out = json.loads(raw.decode()) if raw else {"ok": False, "err": "child died without output"}
             except ValueError:
                 out = {"ok": False, "err": "unparsable child output"}
+            if not out.get("ok") and cerr and not out.get("tb"):
+                out["tb"] = cerr
             results[ent[0]] = out
             if on_result:
                 on_result(ent[0], out)
@@ -119,7 +135,8 @@ def run_parallel(fn, items, workers=None, wall=60.0, on_result=None):
                     pass
                 os.close(rfd)
                 del live[rfd]
-                out = {"ok": False, "err": "wall timeout %.0fs" % wall, "timeout": True}
+                out = {"ok": False, "err": "wall timeout %.0fs" % wall, "timeout": True,
+                       "tb": _child_err(ent[1])}
                 results[ent[0]] = out
                 if on_result:
                     on_result(ent[0], out)
@@ -195,6 +212,24 @@ def _sigs(res):
     return sorted(set(v["sig"] for v in res.get("violations", [])))
 
 
+def _sched_shrink(scn):
+    """Generic candidates: fewer pre-emptions (coarser schedule)."""
+    import copy
+    sc = scn.get("sched") or {}
+    if sc.get("opcode"):
+        c = copy.deepcopy(scn)
+        c["sched"]["opcode"] = False
+        yield c
+    if sc.get("p_line", 0) > 0:
+        c = copy.deepcopy(scn)
+        c["sched"]["p_line"] = sc["p_line"] / 4.0 if sc["p_line"] > 0.002 else 0.0
+        yield c
+    if sc.get("p_sync", 0) > 0.02:
+        c = copy.deepcopy(scn)
+        c["sched"]["p_sync"] = sc["p_sync"] / 3.0
+        yield c
+
+
 def minimise(check, scn, tape, target_sig, budget_s, workers):
     """Scenario delta-debugging, then tape zeroing.  Returns (scn, tape)."""
     from .kernel import Tape
@@ -214,7 +249,7 @@ def minimise(check, scn, tape, target_sig, budget_s, workers):
     while improved and time.time() < t_end and rounds < 40:
         improved = False
         rounds += 1
-        cands = list(check.shrink(best_scn))
+        cands = list(check.shrink(best_scn)) + list(_sched_shrink(best_scn))
         if not cands:
             break
         jobs = []
